@@ -498,6 +498,7 @@ Fixpoint wf_variant (v : variant) : Prop :=
          | None => True
          | Some ds => vals = [] \/
                       (Forall (fun x => 0 < x < 2 ^ 32) ds
+                       /\ Z.of_nat (length ds) < 2 ^ 31
                        /\ u32_product ds = Some (Z.of_nat (length vals)))
          end
   end.
